@@ -212,7 +212,8 @@ func NewWorld() *World {
 		seqOf: map[Sort]Sort{}, elemOf: map[Sort]Sort{}, mapKV: map[Sort][2]Sort{},
 		structs: map[Sort][]structField{}, tags: map[string]int{},
 	}
-	w.AddDef("core", []string{"Ref", "null", "dyn", "fnid", "Fuel", "FZ", "FS"}, `(declare-sort Ref 0)
+	w.AddDef("core", []string{"Ref", "null", "dyn", "fnid", "Fuel", "FZ", "FS", "Abs"}, `(declare-sort Ref 0)
+(declare-sort Abs 0)
 (declare-fun null () Ref)
 (declare-fun dyn (Ref) Int)
 (assert (= (dyn null) 0))
@@ -311,6 +312,7 @@ const seqInTemplate = `(declare-fun in_$X ($E $S) Bool)
 (assert (forall ((e $E) (a $S) (b $S)) (! (= (in_$X e (cat_$X a b)) (or (in_$X e a) (in_$X e b))) :pattern ((in_$X e (cat_$X a b))))))
 (assert (forall ((e $E) (s $S)) (! (=> (in_$X e s) (and (<= 0 (idx_$X e s)) (< (idx_$X e s) (len_$X s)) (= (at_$X s (idx_$X e s)) e))) :pattern ((in_$X e s)))))
 (assert (forall ((s $S) (i Int)) (! (=> (and (<= 0 i) (< i (len_$X s))) (in_$X (at_$X s i) s)) :pattern ((at_$X s i)))))
+(assert (forall ((e $E) (s $S) (a Int) (b Int)) (! (=> (and (<= 0 a) (<= a b) (<= b (len_$X s)) (in_$X e (sub_$X s a b))) (in_$X e s)) :pattern ((in_$X e (sub_$X s a b))))))
 `
 
 func (w *World) SeqMk(seq Sort, n Term) Term { return App(seq, "mkseq_"+seqX(seq), n) }
